@@ -28,8 +28,8 @@ var tlSpell = map[string][]string{
 	"dq": {"\""}, "semi": {";", ";touch${IFS}CANARY;"}, "amp": {"&", "&&"}, "pipe": {"|", "||"}, "lp": {"("}, "rp": {")"},
 	"lt": {"<"}, "gt": {">", ">CANARY"}, "sp": {" "}, "hash": {"#"}, "bang": {"!"}, "star": {"*", "?", "[a-z]*"},
 	"other": {"a", "Z9", "touch", "CANARY", "é", "x=1", "-n", "~"},
-	"ctrl": {"\x01", "\x1b", "\x7f", "\r", "\t", "\v", "\f", "\b"},
-	"high": {"\xff", "\x80", "\xc3", "\xfe\xff"},
+	"ctrl":  {"\x01", "\x1b", "\x7f", "\r", "\t", "\v", "\f", "\b"},
+	"high":  {"\xff", "\x80", "\xc3", "\xfe\xff"},
 }
 
 type tlCase struct {
